@@ -634,6 +634,28 @@ func famServeWant(want ...string) family {
 				}
 			}
 		}
+		// deterministic multiplicity stress: blank and doubled field lines around good values of the three single-valued headers
+		{
+			c := &cors.Config{Origins: []string{"https://example.com"}, Credentialed: true, Methods: []string{"PUT"}, ResponseHeaders: []string{"X-R"}, ExtraConfig: cors.ExtraConfig{PrivateNetworkAccess: true}}
+			for _, debug := range []bool{false, true} {
+				m := newMW(c, debug)
+				if m == nil {
+					continue
+				}
+				for _, ov := range [][]string{{"", "https://example.com"}, {" ", "https://example.com"}, {"https://example.com", ""}, {"https://attacker.example", "https://example.com"}, {"https://example.com", "https://attacker.example"}, {"", ""}} {
+					emitOne(c, debug, m, reqT{method: "GET", hdrs: http.Header{"Origin": ov}}, "multiplicity-stress")
+					for _, mv := range [][]string{{"PUT"}, {"", "PUT"}, {"DELETE", "PUT"}, {"PUT", "DELETE"}} {
+						for _, pv := range [][]string{nil, {"", "true"}, {"true", "false"}} {
+							h := http.Header{"Origin": ov, "Access-Control-Request-Method": mv}
+							if pv != nil {
+								h["Access-Control-Request-Private-Network"] = pv
+							}
+							emitOne(c, debug, m, reqT{method: "OPTIONS", hdrs: h}, "multiplicity-stress")
+						}
+					}
+				}
+			}
+		}
 		// deterministic size stress: requested-header lists of 9 000 bytes in one line and in 2 000 lines, from an allowed
 		// and from a disallowed origin, with an allowed and a disallowed method (the refusal must look the same)
 		{
